@@ -16,7 +16,7 @@ use std::collections::BTreeSet;
 pub struct Opts {
     /// `repeat … continue … until <reads a body local>` (finding F9)
     pub f9: bool,
-    /// if-expressions with two or more `elseif` branches (finding F25)
+    /// (finding F25 is fixed: if-expressions with several `elseif` branches are always generated)
     pub many_elifs: bool,
     /// `//` on an object with `__idiv` (finding F26)
     pub idiv_meta: bool,
@@ -46,7 +46,14 @@ mt.__add = function(a, b) emit("add") return 1 end
 mt.__div = function(a, b) emit("div") return 8 end
 mt.__concat = function(a, b) emit("concat") return "c" end
 mt.__tostring = function(o) emit("tostring") return "<obj>" end
-local O = setmetatable({}, mt)"#;
+local O = setmetatable({}, mt)
+local H = {t = T, T}
+local KS = {k = "x", "x"}
+local function getH() emit("getH") return H end
+local function getKS() emit("getKS") return KS end
+local function negone() emit("negone") return -1 end
+local function lens() emit("lens") return "a" end
+local KV = "x""#;
 
 impl<'a> G<'a> {
     pub fn new(rng: &'a mut Rng, opts: Opts) -> Self {
@@ -92,8 +99,8 @@ impl<'a> G<'a> {
                 if self.rng.chance(1, 3) {
                     let c2 = self.boolean(d - 1);
                     let m = self.num(d - 1);
-                    if self.opts.many_elifs && self.rng.chance(1, 2) {
-                        self.tag("f25-shape");
+                    if self.rng.chance(1, 2) {
+                        self.tag("if-expression-many-elseif");
                         let c3 = self.boolean(d - 1);
                         let m2 = self.num(d - 1);
                         format!("(if {} then {} elseif {} then {} elseif {} then {} else {})", c, a, c2, m, c3, m2, b)
@@ -334,6 +341,44 @@ impl<'a> G<'a> {
         self.push(format!("emit({})", args.join(", ")));
     }
 
+    /// an index KEY that evaluates to an existing key of `T` ("x" or 1), one shape per `Expression`
+    /// variant `replace_with` classifies, written BARE (no parentheses) with an effectful operand
+    fn key_variant(&mut self) -> (String, &'static str) {
+        match self.rng.below(16) {
+            0 => ("key() :: string".to_owned(), "key-typecast"),
+            1 => ("getKS().k :: any".to_owned(), "key-typecast"),
+            2 => ("key() .. \"\"".to_owned(), "key-binary"),
+            3 => ("-negone()".to_owned(), "key-unary"),
+            4 => ("#lens()".to_owned(), "key-unary"),
+            5 => ("getKS().k".to_owned(), "key-field"),
+            6 => ("getKS()[idx()]".to_owned(), "key-index"),
+            7 => ("id<<string>>(key())".to_owned(), "key-call-instantiated"),
+            8 => ("KV<<string>>".to_owned(), "key-type-instantiation"),
+            9 => ("key()".to_owned(), "key-call"),
+            10 => ("(key() :: string)".to_owned(), "key-paren-typecast"),
+            11 => ("(KV)".to_owned(), "key-paren-identifier"),
+            12 => ("if flag1() then key() else key()".to_owned(), "key-if-expression"),
+            13 => ("`x`".to_owned(), "key-interpolated"),
+            14 => ("KV".to_owned(), "key-identifier"),
+            _ => ("(function() emit(\"fnkey\") return \"x\" end)()".to_owned(), "key-call-of-function"),
+        }
+    }
+
+    /// a PREFIX that evaluates to `T`, one shape per `Prefix` variant, with an effectful operand
+    fn prefix_variant(&mut self) -> (String, &'static str) {
+        match self.rng.below(9) {
+            0 => ("getT()".to_owned(), "prefix-call"),
+            1 => ("getH().t".to_owned(), "prefix-field"),
+            2 => ("getH()[idx()]".to_owned(), "prefix-index"),
+            3 => ("(getT())".to_owned(), "prefix-paren-call"),
+            4 => ("(T)".to_owned(), "prefix-paren-identifier"),
+            5 => ("T".to_owned(), "prefix-identifier"),
+            6 => ("(getT() :: any)".to_owned(), "prefix-paren-typecast"),
+            7 => ("H.t<<number>>".to_owned(), "prefix-type-instantiation"),
+            _ => ("(if flag1() then getT() else T)".to_owned(), "prefix-paren-if-expression"),
+        }
+    }
+
     fn compound(&mut self, d: usize) {
         self.tag("compound-assignment");
         let op = *self.rng.pick(&["+=", "-=", "*=", "/=", "//=", "%=", "^="]);
@@ -341,7 +386,34 @@ impl<'a> G<'a> {
             self.tag("floor-division-assign");
         }
         let v = self.num(d);
-        match self.rng.below(20) {
+        match self.rng.below(28) {
+            20 | 21 | 22 | 23 => {
+                // prefix[key] with every classified prefix / key variant
+                let (pfx, ptag) = self.prefix_variant();
+                let (key, ktag) = self.key_variant();
+                self.tag(ptag);
+                self.tag(ktag);
+                let stmt = format!("{}[{}] {} {}", pfx, key, op, v);
+                let stmt = if stmt.starts_with('(') { format!("do {} end", stmt) } else { stmt };
+                self.push(format!("{} emit(T.x, T[1])", stmt));
+            }
+            24 | 25 => {
+                let (key, ktag) = self.key_variant();
+                self.tag(ktag);
+                self.push(format!("T[{}] {} {} emit(T.x, T[1])", key, op, v));
+            }
+            26 => {
+                let (pfx, ptag) = self.prefix_variant();
+                self.tag(ptag);
+                let stmt = format!("{}.x {} {}", pfx, op, v);
+                let stmt = if stmt.starts_with('(') { format!("do {} end", stmt) } else { stmt };
+                self.push(format!("{} emit(T.x)", stmt));
+            }
+            27 => {
+                self.tag("key-vararg");
+                let f = self.fresh("vk");
+                self.push(format!("local function {f}(...) T[...] {} {} return T.x end emit({f}(\"x\"))", op, v, f = f));
+            }
             0 => {
                 let x = self.fresh("v");
                 self.push(format!("local {} = 2 {} {} {} emit({})", x, x, op, v, x));
@@ -478,7 +550,36 @@ impl<'a> G<'a> {
     }
 
     fn positions(&mut self, d: usize) {
-        match self.rng.below(11) {
+        match self.rng.below(15) {
+            11 => {
+                // `f { … }`: Arguments::Table — its entries are a position of their own
+                self.tag("in-table-call-arguments");
+                let a = self.any(d);
+                let b = self.any(d);
+                let c = self.num(d);
+                let k = self.string(d);
+                self.push(format!("emit {{ {}, n = {}, [{}] = {} }}", a, b, k, c));
+            }
+            12 => {
+                self.tag("in-table-call-arguments");
+                self.tag("continue-in-table-call-function");
+                let i = self.fresh("i");
+                let a = self.any(d);
+                self.push(format!("emit {{ (function() for {i} = 1, 3 do if {i} == 2 then continue end emit({i}, {}) end return 0 end)() }}", a, i = i));
+            }
+            13 => {
+                self.tag("in-method-table-call-arguments");
+                self.tag("continue-in-table-call-function");
+                let m = self.fresh("tc");
+                let i = self.fresh("i");
+                let a = self.num(d);
+                self.push(format!("local {m} = {{}} function {m}:run(t) return t.f() + t[1] end emit({m}:run {{ {}, f = function() local n = 0 for {i} = 1, 3 do if {i} == 2 then continue end n += {i} end return n end }})", a, m = m, i = i));
+            }
+            14 => {
+                self.tag("in-string-call-arguments");
+                let c = self.boolean(d);
+                self.push(format!("emit \"sugar\" emit [[long]] do local r = (if {} then emit else emit2) \"s\" emit(r) end", c));
+            }
             0 => {
                 self.tag("in-condition-if");
                 let c = self.boolean(d);
